@@ -245,6 +245,16 @@ func main() {
 			}
 			continue
 		}
+		if res.count("undecided") > 0 {
+			for _, o := range res.Obs {
+				if o.Verdict == "undecided" {
+					fmt.Printf("UNDECIDED property=%s rule=%s reason=%s\n", id, o.Rule, o.Detail)
+				}
+			}
+			if exit == 0 {
+				exit = 2
+			}
+		}
 		if st != nil && (len(st.Survived) > 0 || len(st.Noisy) > 0) {
 			// a variant that should be reported but is not: the checker lost power; this
 			// is a defect of the checker, not of the repository: say so loudly but
@@ -382,7 +392,13 @@ func runProperty(c *Ctx, p *property, known []knownFinding) (res *result) {
 		n := len(c.obs) - before
 		res.Rules[r.ID] = n
 		res.Floors[r.ID] = r.Floor
-		if n < r.Floor {
+		lost := false
+		for _, o := range c.obs[before:] {
+			if o.Verdict == "undecided" {
+				lost = true
+			}
+		}
+		if n < r.Floor && !lost {
 			// The mechanism the property is anchored in is no longer there (or no longer
 			// recognisable): the necessary condition cannot be shown, report it.
 			c.obs = append(c.obs, Obligation{Rule: r.ID, Construct: "floor", Pos: "-", Verdict: "violation",
